@@ -2,6 +2,7 @@ SPECIFICATION TSpec
 CONSTANTS
   MaxOffers = 100
   MaxCrash = 0
+  Atomic = FALSE
   GenMode = "none"
 CONSTRAINT HighWater
 POSTCONDITION Accepted
